@@ -21,6 +21,8 @@ import (
 //   tracked update time      refreshed by every hook-running update unless omitted; never by
 //                            UpdateColumn(s)
 //   rows                     only rows matching the chain's conditions AND the model value's key
+//   default values           a column an INSERT may not write (no create permission, omitted, not
+//                            selected) keeps what the table's DDL gives it: its DEFAULT, else NULL
 //
 // Everything the statement leaves open is mFree (not checked), see Engine.Assumptions.
 
@@ -32,10 +34,12 @@ const (
 )
 
 type cellExp struct {
-	mode int
-	want string
-	cls  string // violation class when the expectation fails
-	why  string
+	mode   int
+	want   string
+	alt    string // mMust: a second acceptable content ("" = none)
+	absent string // new rows: content of the cell when the INSERT does not name the column
+	cls    string // violation class when the expectation fails
+	why    string
 }
 
 type rowExp struct {
@@ -49,6 +53,9 @@ type prediction struct {
 	order  []string
 	target []string // keys of existing rows the operation addresses
 	sigFor map[string]string
+	// keys carried by records of a create whose key column is omitted / not selected: the
+	// database assigns the key, a row with the carried key must not appear
+	unwrittenKeys map[string]bool
 }
 
 type selInfo struct {
@@ -101,7 +108,7 @@ func (m *model) seedFor(key string) *seedRow {
 }
 
 func newPrediction(m *model) *prediction {
-	p := &prediction{rows: map[string]*rowExp{}, sigFor: map[string]string{}}
+	p := &prediction{rows: map[string]*rowExp{}, sigFor: map[string]string{}, unwrittenKeys: map[string]bool{}}
 	for _, r := range m.rows {
 		re := &rowExp{key: normL(r.key), cells: map[string]cellExp{}}
 		for _, f := range m.fields {
@@ -179,9 +186,15 @@ func (p *prediction) updateRow(m *model, o *op, rc *rec, key string) {
 }
 
 // newRow: expectations for a row inserted from rc (struct: every field is given; map: its keys).
+// A column the INSERT must not name holds f.absent(): the column's DDL default, else NULL.
 func (p *prediction) newRow(m *model, o *op, rc *rec, key string, autoKey bool) {
 	si := selinfo(o)
 	re := &rowExp{key: key, isNew: true, cells: map[string]cellExp{}}
+	keepAbsent := func(f *field, cls, why string) cellExp {
+		e := keep(f.absent(), cls, why)
+		e.absent = f.absent()
+		return e
+	}
 	for _, f := range m.fields {
 		switch {
 		case f.pk:
@@ -200,21 +213,44 @@ func (p *prediction) newRow(m *model, o *op, rc *rec, key string, autoKey bool) 
 		}
 		mv, present := rc.vals[f.idx]
 		if o.isMap && !present {
-			re.cells[f.col] = keep("NULL", "ungiven-column-written", "the map has no key for "+f.name)
+			if f.def != "" && otherRecHas(o, rc, f.idx) {
+				// a batch of maps writes NULL for a key only other maps have; NULL versus the
+				// column default is not fixed by the statement
+				re.cells[f.col] = cellExp{mode: mFree}
+				continue
+			}
+			re.cells[f.col] = keepAbsent(f, "ungiven-column-written", "the map has no key for "+f.name)
 			continue
 		}
 		if ok, cls, w := si.allowed(f.idx); !ok {
-			re.cells[f.col] = keep("NULL", cls, w)
+			re.cells[f.col] = keepAbsent(f, cls, w)
 			continue
 		}
 		if !f.canCreate {
-			re.cells[f.col] = keep("NULL", "denied-column-written", "field "+f.name+" `"+f.perm+"` has no create permission")
+			re.cells[f.col] = keepAbsent(f, "denied-column-written", "field "+f.name+" `"+f.perm+"` has no create permission")
 			continue
 		}
-		re.cells[f.col] = cellExp{mode: mMust, want: mv.stored(lval{null: true}), why: "given value of " + f.name}
+		e := cellExp{mode: mMust, want: mv.stored(lval{null: true}), absent: f.absent(), why: "given value of " + f.name}
+		if !o.isMap && f.def != "" && isGoZero(f.k, mv.lv) {
+			// zero value of a field with a default: the default (written by gorm or left to the
+			// database); the statement does not exclude writing the zero value itself
+			e.want, e.alt, e.why = f.defStored, mv.stored(lval{null: true}), "zero value of "+f.name+", which has a default"
+		}
+		re.cells[f.col] = e
 	}
 	p.rows[key] = re
 	p.order = append(p.order, key)
+}
+
+func otherRecHas(o *op, rc *rec, fi int) bool {
+	for _, x := range o.recs {
+		if x != rc {
+			if _, ok := x.vals[fi]; ok {
+				return true
+			}
+		}
+	}
+	return false
 }
 
 // conflictRow: expectations for an existing row hit by an upsert (or Save of a slice).
@@ -260,11 +296,17 @@ func (p *prediction) conflictRow(m *model, o *op, rc *rec, key string) {
 			re.cells[f.col] = cellExp{mode: mFree}
 			continue
 		}
+		// the new value of a field with a default: excluded.<col> of a zero value (the default, or
+		// a column the INSERT leaves out) and whether UpdateAll lists a database-default column at
+		// all are not fixed by the statement
+		defOpen := f.def != "" && (isGoZero(f.k, rc.vals[f.idx].lv) || f.dbDefault())
 		switch o.kind {
 		case "upsert-cols":
 			switch {
 			case !listed[f.idx]:
 				re.cells[f.col] = keep(cur, "unlisted-column-written", "not listed in DoUpdates")
+			case defOpen && isGoZero(f.k, rc.vals[f.idx].lv):
+				re.cells[f.col] = cellExp{mode: mFree}
 			case !f.canCreate:
 				re.cells[f.col] = cellExp{mode: mFree} // excluded.<col> of a column the insert may not write
 			default:
@@ -279,7 +321,7 @@ func (p *prediction) conflictRow(m *model, o *op, rc *rec, key string) {
 		default: // UpdateAll, Save(slice)
 			if ok, cls, w := si.allowed(f.idx); !ok {
 				re.cells[f.col] = keep(cur, cls, w)
-			} else if !f.canCreate {
+			} else if !f.canCreate || defOpen {
 				re.cells[f.col] = cellExp{mode: mFree}
 			} else {
 				re.cells[f.col] = cellExp{mode: mMust, want: rc.vals[f.idx].stored(old), why: "UpdateAll: new value of " + f.name}
@@ -304,6 +346,9 @@ func predict(m *model, o *op, condKeys map[string]bool) *prediction {
 			}
 		}
 		if !written || m.keyIsZero(k) {
+			if ok && !m.keyIsZero(k) {
+				p.unwrittenKeys[normL(k)] = true
+			}
 			nextAuto++
 			return strconv.FormatInt(nextAuto, 10), true
 		}
